@@ -4,7 +4,7 @@ from ..core import *
 from . import matchroles
 
 EXPLANATION = (
-    "Static decision on the MIR of /repo's working tree: (R-C15-store) in append_to_commitlog and append_will_message (siblings): an empty payload leads to remove_from_retained_publishes, "
+    "Static decision on the MIR of /repo's working tree: (R-C15-store) in append_to_commitlog and append_will_message (siblings): a retained publish with an empty payload (and only a retained one) leads to remove_from_retained_publishes, "
     "otherwise retain leads to insert_to_retained_publishes with a copy taken before `publish.retain = false`, and that assignment dominates the append loop (live forwards are not flagged retained); "
     "(R-C15-oneshot) read_retained_messages is called only in forward_device_data under request.forward_retained and every path from the call clears the flag; a new DataRequest's forward_retained is group.is_none(); "
     "a DataRequest is built only when connection.subscriptions.insert() reported a new filter; retained forwards carry no log cursor. "
@@ -102,11 +102,13 @@ def store(ctx, prog):
         sw_bb, t_empty, t_nonempty, _ = empties[0]
         rsw, t_retain, t_noretain = retain_sw[0]
         rw = retain_writes[0]
-        # empty payload → remove, never insert
+        # retained & empty payload → remove, never insert
         if not (dominates(body, t_empty, removes[0]) and inserts[0] not in reachable(body, (t_empty,), avoid_blocks=(rw,))):
             okc = False; why.append("empty payload does not lead to remove_from_retained_publishes only")
-        # non-empty & retain → insert
-        if not (dominates(body, t_nonempty, rsw) and dominates(body, t_retain, inserts[0])):
+        if not dominates(body, t_retain, removes[0]):
+            okc = False; why.append("remove_from_retained_publishes is not under `publish.retain`: a NON-retained publish with an empty payload wipes the topic's retained message, and new subscriptions no longer get it")
+        # retained & non-empty → insert
+        if not (dominates(body, t_nonempty, inserts[0]) and dominates(body, t_retain, inserts[0])):
             okc = False; why.append("insert_to_retained_publishes is not under `!payload.is_empty() && publish.retain`")
         # retain = false after the store, before every append
         if inserts[0] in reachable_after(body, [rw]) or rsw in reachable_after(body, [rw]):
